@@ -67,6 +67,8 @@ pub enum LoadError {
     Malformed(String),
     /// the loader's own ground-truth cross-check failed (harness problem, not a verdict)
     CrossCheck(String),
+    /// the file is structurally inconsistent in a way the statement does not decide (not judged)
+    Unspecified(String),
 }
 
 fn mal<T>(s: impl Into<String>) -> Result<T, LoadError> {
@@ -228,14 +230,30 @@ pub fn load_value(j: &Value, crosscheck: bool) -> Result<Loaded, LoadError> {
     // public memory
     let mem = pi["public_memory"].as_array().ok_or_else(|| LoadError::Malformed("public_memory".into()))?;
     let mut main_page = Vec::new();
+    let mut pages: std::collections::BTreeMap<u64, Vec<(u64, Felt)>> = std::collections::BTreeMap::new();
     for c in mem {
         let page = get_u64(&c["page"], "page")?;
         let addr = get_u64(&c["address"], "address")?;
         let val = parse_felt(c["value"].as_str().ok_or_else(|| LoadError::Malformed("memory value".into()))?)?;
         if page != 0 {
-            return mal("continuous pages are not representable by the CLI conversion");
+            pages.entry(page).or_default().push((addr, val));
+        } else {
+            main_page.push(AddrValue { address: Felt::from(addr), value: val });
         }
-        main_page.push(AddrValue { address: Felt::from(addr), value: val });
+    }
+    // continuous pages must be numbered 1..k and hold consecutive addresses
+    for (i, (id, cells)) in pages.iter().enumerate() {
+        if *id != i as u64 + 1 {
+            return mal("continuous pages are not numbered 1..k");
+        }
+        for (k, (a, _)) in cells.iter().enumerate() {
+            if *a != cells[0].0 + k as u64 {
+                return mal("continuous page with non-consecutive addresses");
+            }
+        }
+    }
+    if mem.first().map(|c| c["page"].as_u64() != Some(0)).unwrap_or(false) {
+        return Err(LoadError::Unspecified("the first public memory cell (the padding cell) is not on the main page".into()));
     }
     let first = main_page.first().ok_or_else(|| LoadError::Malformed("empty public memory".into()))?;
     let (padding_addr, padding_value) = (first.address, first.value);
@@ -251,6 +269,7 @@ pub fn load_value(j: &Value, crosscheck: bool) -> Result<Loaded, LoadError> {
         main_page: Page(main_page),
         continuous_page_headers: vec![],
     };
+    let mut public_input = public_input;
 
     // annotations
     let ann = j["annotations"].as_array().ok_or_else(|| LoadError::Malformed("annotations".into()))?;
@@ -413,8 +432,11 @@ pub fn load_value(j: &Value, crosscheck: bool) -> Result<Loaded, LoadError> {
             }
             (p, k) if p.starts_with("STARK/FRI/Decommitment/Layer ") => {
                 let li: usize = p["STARK/FRI/Decommitment/Layer ".len()..].parse().map_err(|_| LoadError::Malformed("layer number".into()))?;
-                if li == 0 || li > n_inner {
+                if li == 0 {
                     return mal("FRI layer number out of range");
+                }
+                if li > n_inner {
+                    return Err(LoadError::Unspecified("decommitment lines for FRI layers beyond the declared step list".into()));
                 }
                 match k {
                     "Field Element" => {
@@ -443,11 +465,51 @@ pub fn load_value(j: &Value, crosscheck: bool) -> Result<Loaded, LoadError> {
     let composition = composition.ok_or_else(|| LoadError::Malformed("no composition commitment".into()))?;
     let nonce = nonce.ok_or_else(|| LoadError::Malformed("no nonce".into()))?;
 
+    if !pages.is_empty() {
+        if log.interaction_elements.len() < 2 {
+            return mal("continuous pages need the memory interaction elements");
+        }
+        let (z, alpha) = (log.interaction_elements[0], log.interaction_elements[1]);
+        for cells in pages.values() {
+            let mut h = Felt::ZERO;
+            let mut prod = Felt::ONE;
+            for (a, v) in cells {
+                h = starknet_crypto::pedersen_hash(&h, v);
+                prod *= z - (Felt::from(*a) + alpha * *v);
+            }
+            h = starknet_crypto::pedersen_hash(&h, &Felt::from(cells.len() as u64));
+            public_input.continuous_page_headers.push(swiftness_air::types::ContinuousPageHeader {
+                start_address: Felt::from(cells[0].0),
+                size: Felt::from(cells.len() as u64),
+                hash: h,
+                prod,
+            });
+        }
+    }
+    if ![3usize, 6, 8].contains(&log.interaction_elements.len()) {
+        return Err(LoadError::Unspecified("number of logged interaction elements".into()));
+    }
+
     // configuration, Stone's conventions
     let vcfg = |h: u64| VConfig { height: Felt::from(h), n_verifier_friendly_commitment_layers: Felt::from(nvf) };
     let (c1, c2) = match &public_input.dynamic_params {
         Some(d) => (d.num_columns_first as u64, d.num_columns_second as u64),
-        None => (trace_cols[0], trace_cols[1]),
+        None => {
+            // Stone's static layouts (cross-checked against the column labels of the file when present)
+            let (a, b) = match layout.as_str() {
+                "dex" => (21, 1),
+                "recursive" => (7, 3),
+                "recursive_with_poseidon" => (6, 2),
+                "small" => (23, 2),
+                "starknet" => (9, 1),
+                "starknet_with_keccak" => (12, 3),
+                _ => return mal("layout has no verifier"),
+            };
+            if crosscheck && ((trace_cols[0] != 0 && trace_cols[0] != a) || (trace_cols[1] != 0 && trace_cols[1] != b)) {
+                return Err(LoadError::CrossCheck(format!("column labels ({}, {}) differ from the layout's ({}, {})", trace_cols[0], trace_cols[1], a, b)));
+            }
+            (a, b)
+        }
     };
     let mut inner_layers = Vec::new();
     let mut h = log_eval;
